@@ -2,6 +2,7 @@ package checks
 
 import (
 	"fmt"
+	"time"
 
 	pt "github.com/weedbox/pokertable"
 
@@ -238,6 +239,95 @@ func (tr *c05Tracker) opened(p *Play, e *h.Ev) {
 	c.FP(len(dealt), waiting)
 }
 
+// c05FirstHandWithLateSitters: two or more players hold seats but only one has sat in when the first hand is due.
+// No hand may open with him alone; once the others sit in (while the engine waits to retry) the hand opens with
+// everybody who is seated-in with chips.
+func c05FirstHandWithLateSitters(c *h.Ctx) {
+	r := c.R
+	cfg := h.GenTable(r, h.GenOpts{MinSeats: 2, MaxSeats: 6, MinPlayers: 2, DeepOnly: true, Modes: []string{"ct", "cash"}})
+	s, err := h.NewSim(h.SimConfig{Setting: cfg.Setting(false), Interval: 0}, r.Int63())
+	if err != nil {
+		c.Inconclusive(err.Error())
+		return
+	}
+	for _, pl := range cfg.Players {
+		if err := s.Reserve(pl.ID, pl.Seat, pl.Chips); err != nil {
+			c.Inconclusive("reserve: " + err.Error())
+			return
+		}
+	}
+	first := cfg.Players[r.Intn(len(cfg.Players))].ID
+	s.Join(first)
+	s.TE.StartTableGame()
+	w := func() interface{} {
+		return map[string]interface{}{"cfg": cfg, "first_to_sit_in": first, "trace": s.TraceTail(40)}
+	}
+	judge := func(e *h.Ev) bool {
+		if e.Kind != h.EvTable || e.T == nil || e.T.State.Status != pt.TableStateStatus_TableGameOpened {
+			return false
+		}
+		dealt := 0
+		for _, ps := range e.T.State.PlayerStates {
+			if ps.IsParticipated {
+				dealt++
+				if !ps.IsIn || ps.Bankroll <= 0 {
+					c.Violate("C05/dealt-in-without-seat-or-chips", fmt.Sprintf("first hand: %s is dealt in with is_in=%v bankroll=%d", ps.PlayerID, ps.IsIn, ps.Bankroll), w())
+					return true
+				}
+			} else if ps.IsIn && ps.Bankroll > 0 {
+				c.Violate("C05/eligible-player-not-dealt-in/first-hand", fmt.Sprintf("first hand: %s is seated-in with chips and not dealt in", ps.PlayerID), w())
+				return true
+			}
+		}
+		if dealt < 2 {
+			c.Violate("C05/hand-opened-with-fewer-than-two", fmt.Sprintf("the first hand opened with %d dealt-in players (only %s had sat in)", dealt, first), w())
+		}
+		return true
+	}
+	e, ok := s.WaitFor(5*time.Second, func(e *h.Ev) bool { return e.Kind == h.EvSetup }, nil)
+	if !ok {
+		c.Inconclusive("no first set-up")
+		return
+	}
+	s.SignalAll(h.SetupIDs(e.Setup)) // only the seated-in player's signal counts: the gate fires by its 2 s timeout
+	opened := false
+	s.WaitFor(4*time.Second, func(e *h.Ev) bool {
+		if judge(e) {
+			opened = true
+		}
+		return opened || e.Kind == h.EvGateFire
+	}, nil)
+	if c.Failed() {
+		return
+	}
+	if opened {
+		c.Violate("C05/hand-opened-with-fewer-than-two", "a hand opened although only one player had sat in", w())
+		return
+	}
+	time.Sleep(time.Duration(200+r.Intn(1500)) * time.Millisecond)
+	for _, pl := range cfg.Players {
+		if pl.ID != first {
+			s.TE.PlayerJoin(pl.ID)
+			time.Sleep(400 * time.Microsecond)
+		}
+	}
+	s.WaitFor(9*time.Second, func(e *h.Ev) bool {
+		if judge(e) {
+			opened = true
+		}
+		return opened
+	}, nil)
+	if c.Failed() {
+		return
+	}
+	if opened {
+		c.Feature("first-hand-after-late-sitters")
+		c.Nontrivial()
+	}
+	c.FP("late-sitters", fmt.Sprintf("%+v", cfg), first)
+	c.Sample(map[string]interface{}{"kind": "first hand due with one player seated in; the others sit in while the engine waits to retry", "cfg": cfg, "opened": opened})
+}
+
 func init() {
 	h.Register(&h.Check{
 		ID:        "C05",
@@ -249,15 +339,21 @@ func init() {
 			"'the button' of a new hand is ambiguous across heads-up transitions; a player is judged only where the published dealer seat and the previous small-blind seat give the same answer",
 			"add-ons (PlayerRedeemChips) are only given to players who still have chips: the statement names re-buy as the way a busted player becomes eligible again",
 		},
-		Cases:            func(tier string) int { return map[string]int{"quick": 256, "thorough": 4000}[tier] },
-		MinNontrivial:    func(tier string) int { return map[string]int{"quick": 100, "thorough": 1500}[tier] },
-		RequiredFeatures: func(string) []string { return []string{"waiting-newcomer", "newcomer-dealt-in", "addon-to-busted-player-between-hands", "seated-in-by-auto-join-timer"} },
-		CaseTimeout:      180e9,
+		Cases:         func(tier string) int { return map[string]int{"quick": 256, "thorough": 4000}[tier] },
+		MinNontrivial: func(tier string) int { return map[string]int{"quick": 100, "thorough": 1500}[tier] },
+		RequiredFeatures: func(string) []string {
+			return []string{"waiting-newcomer", "newcomer-dealt-in", "addon-to-busted-player-between-hands", "seated-in-by-auto-join-timer", "first-hand-after-late-sitters"}
+		},
+		CaseTimeout: 180e9,
 		Run: func(c *h.Ctx) {
+			if c.Case%32 == 17 {
+				c05FirstHandWithLateSitters(c)
+				return
+			}
 			po := PlayOpts{
-				Hands: 8 + c.R.Intn(13),
-				Churn: Churn{BetweenP: 0.6, MidP: 0.2, Rebuy: true, BuyIn: true, Leave: true, AddOn: true, AddOnBusted: true, MidJoin: true, MidLeaveOther: true, MidTopup: false, RandomSeat: true, ResumePaused: true, SitOut: true, Batch: true},
-				Gen:   h.GenOpts{MinSeats: 3, ShortStacks: c.R.Intn(2) == 0},
+				Hands:    8 + c.R.Intn(13),
+				Churn:    Churn{BetweenP: 0.6, MidP: 0.2, Rebuy: true, BuyIn: true, Leave: true, AddOn: true, AddOnBusted: true, MidJoin: true, MidLeaveOther: true, MidTopup: false, RandomSeat: true, ResumePaused: true, SitOut: true, Batch: true},
+				Gen:      h.GenOpts{MinSeats: 3, ShortStacks: c.R.Intn(2) == 0},
 				Policies: []string{"maniac", "callstation", "random"},
 				Decks:    []string{"rank", "seeded"},
 			}
